@@ -125,3 +125,81 @@ func vfConfigs(args []string, i int) []string {
 	}
 	return out
 }
+
+func init() {
+	vfRegister("VerifC05Fetchers", VerifC05Fetchers)
+}
+
+// VerifC05Fetchers: args = [base keys (comma separated, one per local variable), fetcher kind
+// ("slice" | "map")]. The library's own fetchers under TryEval: a context built for a base
+// config serves expressions compiled with an extension of it (more registered variables).
+// The extension's variables are unavailable: TryEval must report DNE for what depends on
+// them (never an error, never a default) and still decide what the local variables decide;
+// local variables read their bound (arbitrary) values.
+func VerifC05Fetchers(args []string) {
+	keys := vfSplit(args[0], ',')
+	base := NewConfig()
+	vals := map[string]interface{}{}
+	var locals []string
+	for i, ks := range keys {
+		k := 0
+		neg := false
+		for _, c := range ks {
+			if c == '-' {
+				neg = true
+				continue
+			}
+			k = k*10 + int(c-'0')
+		}
+		if neg {
+			k = -k
+		}
+		name := "l" + string(rune('0'+i))
+		base.VariableKeyMap[name] = VariableKey(k)
+		vals[name] = vfBool("val." + name)
+		locals = append(locals, name)
+	}
+	var ctx *Ctx
+	if args[1] == "map" {
+		ctx = &Ctx{VariableFetcher: NewMapVarFetcher(vals)}
+	} else {
+		ctx = NewCtxFromVars(base, vals)
+	}
+	ext := NewConfig(ExtendConf(base))
+	remotes := []string{"r0", "r1", "r2"}
+	for _, r := range remotes {
+		GetOrRegisterKey(ext, r)
+	}
+	try := func(src string) (Value, error) {
+		e, err := Compile(ext, src)
+		vfAssert(err == nil && e != nil, "expression over local and remote variables compiles: "+src)
+		return e.TryEval(ctx)
+	}
+	for _, r := range remotes {
+		v, err := try("(not " + r + ")")
+		vfReach("remote")
+		vfAssert(err == nil, "TryEval reports an error for an unavailable variable instead of DNE: "+r)
+		vfAssert(v == DNE, "TryEval does not report DNE for an expression over an unavailable variable: "+r)
+		for _, l := range locals {
+			lv := vals[l].(bool)
+			v, err = try("(and " + r + " " + l + ")")
+			vfAssert(err == nil, "TryEval reports an error although only a variable is unavailable: (and "+r+" "+l+")")
+			if !lv {
+				vfAssert(v == false, "an available false operand does not decide the and: (and "+r+" "+l+")")
+			} else {
+				vfAssert(v == DNE, "an undecided and is not DNE: (and "+r+" "+l+")")
+			}
+			v, err = try("(or " + l + " (not " + r + "))")
+			vfAssert(err == nil, "TryEval reports an error although only a variable is unavailable: (or "+l+" (not "+r+"))")
+			if lv {
+				vfAssert(v == true, "an available true operand does not decide the or: (or "+l+" (not "+r+"))")
+			} else {
+				vfAssert(v == DNE, "an undecided or is not DNE: (or "+l+" (not "+r+"))")
+			}
+		}
+	}
+	for _, l := range locals {
+		v, err := try("(not " + l + ")")
+		vfAssert(err == nil && v == !vals[l].(bool), "a local variable does not read its bound value under TryEval: "+l)
+	}
+}
